@@ -75,8 +75,9 @@ where
 {
     let bin_count = read_bin_count(reader)?;
 
-    let mut bins = IndexMap::with_capacity(bin_count);
-    let mut index = BinnedIndex::with_capacity(bin_count);
+    // `bin_count` is untrusted: reserve a bounded amount.
+    let mut bins = IndexMap::with_capacity(bin_count.min(1 << 16));
+    let mut index = BinnedIndex::with_capacity(bin_count.min(1 << 16));
 
     let metadata_id = Bin::metadata_id(depth);
     let mut metadata = None;
